@@ -660,7 +660,7 @@ J_FIXED = [
 
 # ------------------------------------------------------------------------------------------ running
 
-def shard_run(ctx, exe, lines, shards=12, timeout=600):
+def shard_run(ctx, exe, lines, shards=12, timeout=3000):
     """Run a stateless line-protocol executable over `lines`, sharded over processes; order preserved."""
     if not lines: return []
     n = max(1, min(shards, len(lines) // 200 + 1))
@@ -767,7 +767,7 @@ def main(ctx):
     for s in NUM_FIXED:
         addP(units(s), "fixed-number"); addP(units("[" + s + "]"), "fixed-number"); addP(units("-" + s), "fixed-number")
     bases = [units(s) for s in BASE_FOR_EDITS]
-    n_gen = 1500 if quick else 20000
+    n_gen = 1500 if quick else 10000
     gen = []
     for _ in range(n_gen):
         t = units(gen_text(r))
@@ -775,7 +775,7 @@ def main(ctx):
     # exhaustive single edits of the fixed bases and of some short generated texts
     short = [t for t in gen if 4 <= len(t) <= 40]
     r.shuffle(short)
-    edit_bases = bases + short[:(12 if quick else 150)]
+    edit_bases = bases + short[:(12 if quick else 60)]
     n_ex = 0
     for b in edit_bases:
         for e in all_single_edits(b):
@@ -789,7 +789,7 @@ def main(ctx):
 
     S = [l for l in corpus if l.startswith("S ")]
     gaps_all = all_gaps(r)
-    n_sv = 120 if quick else 1500
+    n_sv = 120 if quick else 1000
     for i in range(n_sv):
         toks = gen_plain(r, 0, r.choice([1, 2, 3, 4, 5]))
         if i < (8 if quick else 40): gl = gaps_all                      # every legal indent form on these values
@@ -801,7 +801,7 @@ def main(ctx):
 
     J = [l for l in corpus if l.startswith("J ") or l.startswith("JF ")]
     for s in J_FIXED: J.append("JF " + hx(s))
-    n_j = 1500 if quick else 30000
+    n_j = 1500 if quick else 15000
     for _ in range(n_j):
         J.append(JGen(r).case())
     Q = []
